@@ -9,6 +9,13 @@ import (
 	"golang.org/x/tools/go/ssa"
 )
 
+func ghostInc(g *Term) *Term {
+	if g.Sort == SInt {
+		return IntAdd(g, IntConst(big1))
+	}
+	return BVAdd(g, BVInt(1, g.Width()))
+}
+
 func freshErr(p *Proof, name string) IfaceV {
 	return IfaceV{Ref: B.Fresh(name, SRef)}
 }
@@ -35,6 +42,12 @@ func fileSizeFn(info *Term) *Term {
 }
 
 func init() {
+	// $fsops (if declared) counts operations that create, change or remove files.
+	fsop := func(st *State) {
+		if g, ok := st.Ghost["fsops"]; ok {
+			st.Ghost["fsops"] = ghostInc(g)
+		}
+	}
 	resultPtrErr := func(name string) libFn {
 		return func(fr *Frame, in ssa.Instruction, st *State, args []Value, rt types.Type) Value {
 			p := fr.p
@@ -48,6 +61,17 @@ func init() {
 				if _, ok := st.Ghost["minsize"]; ok {
 					st.Ghost["minsize"] = BVInt(0, 64)
 				}
+				// O_CREATE == 0x40 on linux: opening with it may create a file
+				if g, ok := st.Ghost["fsops"]; ok {
+					flag := sTerm(args[1])
+					creates := Neq(BVAnd(flag, BVInt(0x40, 64)), BVInt(0, 64))
+					st.Ghost["fsops"] = Ite(creates, ghostInc(g), g)
+				}
+			}
+			if name == "os.Create" {
+				if g, ok := st.Ghost["fsops"]; ok {
+					st.Ghost["fsops"] = ghostInc(g)
+				}
 			}
 			return TupleV{f, e}
 		}
@@ -56,7 +80,7 @@ func init() {
 	reg("os.Open", "may fail with any error; err==nil <=> file != nil", resultPtrErr("os.Open"))
 	reg("os.Create", "may fail with any error; err==nil <=> file != nil", resultPtrErr("os.Create"))
 	for _, k := range []string{"os.OpenFile", "os.Open", "os.Create"} {
-		libEffTable[k] = func(e *effects) { e.ghost["minsize"] = true }
+		libEffTable[k] = func(e *effects) { e.ghost["minsize"] = true; e.ghost["fsops"] = true }
 	}
 
 	reg("(*os.File).Stat", "may fail; err==nil => info != nil, 0 <= info.Size() < 4 GiB (scoping), and info.Size() >= every size observed before on this descriptor (files are not truncated by others)", func(fr *Frame, in ssa.Instruction, st *State, args []Value, rt types.Type) Value {
@@ -87,15 +111,16 @@ func init() {
 		return func(fr *Frame, in ssa.Instruction, st *State, args []Value, rt types.Type) Value {
 			p := fr.p
 			// (*os.File)(nil) methods return ErrInvalid; no panic
+			fsop(st)
 			return TupleV{Scalar{B.Fresh(name+".n", SBV(64))}, freshErr(p, name+".err")}
 		}
 	}
 	reg("(*os.File).WriteAt", "may fail with any error; does not touch program memory", anyIntErr("writeat"))
 	reg("(*os.File).Write", "may fail with any error; does not touch program memory", anyIntErr("write"))
 	reg("(*os.File).WriteString", "may fail with any error", anyIntErr("writestring"))
-	libEffTable["(*os.File).WriteAt"] = noEffect
-	libEffTable["(*os.File).Write"] = noEffect
-	libEffTable["(*os.File).WriteString"] = noEffect
+	for _, k := range []string{"(*os.File).WriteAt", "(*os.File).Write", "(*os.File).WriteString"} {
+		libEffTable[k] = func(e *effects) { e.ghost["fsops"] = true }
+	}
 	reg("(*os.File).Close", "may fail with any error", func(fr *Frame, in ssa.Instruction, st *State, args []Value, rt types.Type) Value {
 		return freshErr(fr.p, "close.err")
 	})
@@ -114,6 +139,10 @@ func init() {
 
 	errOnly := func(name string) libFn {
 		return func(fr *Frame, in ssa.Instruction, st *State, args []Value, rt types.Type) Value {
+			switch name {
+			case "writefile", "remove", "rename":
+				fsop(st)
+			}
 			return freshErr(fr.p, name+".err")
 		}
 	}
@@ -123,8 +152,11 @@ func init() {
 	reg("os.Remove", "may fail with any error", errOnly("remove"))
 	reg("os.Rename", "may fail with any error", errOnly("rename"))
 	reg("os.Setenv", "may fail with any error", errOnly("setenv"))
-	for _, k := range []string{"os.MkdirAll", "os.Mkdir", "os.WriteFile", "os.Remove", "os.Rename", "os.Setenv"} {
+	for _, k := range []string{"os.MkdirAll", "os.Mkdir", "os.Setenv"} {
 		libEffTable[k] = noEffect
+	}
+	for _, k := range []string{"os.WriteFile", "os.Remove", "os.Rename"} {
+		libEffTable[k] = func(e *effects) { e.ghost["fsops"] = true }
 	}
 	reg("os.ReadFile", "may fail with any error; on success returns fresh bytes of any length and content", func(fr *Frame, in ssa.Instruction, st *State, args []Value, rt types.Type) Value {
 		p := fr.p
